@@ -5,6 +5,7 @@
 package hostile
 
 import (
+	"bytes"
 	"fmt"
 	"hash/adler32"
 	"hash/crc32"
@@ -165,3 +166,59 @@ var (
 	collidingOnce  sync.Once
 	collidingPairs [][2]string
 )
+
+// The functions below only describe inputs (for the labels counted in the evidence); they take no part in any verdict.
+
+// BodyCRCClass names the CRC-16 of an RTU frame body (frame without trailer) when it is a value an implementation might
+// special-case: "0000" (the body ends with its own CRC), "ffff", or "" otherwise.
+func BodyCRCClass(body []byte) string {
+	switch spec.RefCRC16(body) {
+	case 0x0000:
+		return "0000"
+	case 0xFFFF:
+		return "ffff"
+	}
+	return ""
+}
+
+// EndsWithExceptionFrame reports whether the last five bytes of an RTU frame longer than five bytes are, taken alone, a
+// CRC-consistent exception frame (unit, function|0x80, code, CRC).
+func EndsWithExceptionFrame(frame []byte) bool {
+	n := len(frame)
+	if n < 6 || frame[n-4]&0x80 == 0 {
+		return false
+	}
+	c := spec.RefCRC16(frame[n-5 : n-2])
+	return frame[n-2] == byte(c) && frame[n-1] == byte(c>>8)
+}
+
+// StartsWithTextToken reports whether b begins with one of TextTokens, as the bytes stand or with the two bytes of every
+// register exchanged.
+func StartsWithTextToken(b []byte) bool {
+	for _, tok := range TextTokens {
+		for _, swapped := range []bool{false, true} {
+			ok := len(b) >= len(tok)+len(tok)%2
+			for i := 0; ok && i < len(tok); i++ {
+				p := i
+				if swapped {
+					p = i ^ 1
+				}
+				ok = p < len(b) && b[p] == tok[i]
+			}
+			if ok {
+				return true
+			}
+		}
+	}
+	return false
+}
+
+// StartsWithToken reports whether b begins with one of Tokens of at least three bytes.
+func StartsWithToken(b []byte) bool {
+	for _, tok := range Tokens {
+		if len(tok) >= 3 && bytes.HasPrefix(b, tok) {
+			return true
+		}
+	}
+	return false
+}
